@@ -104,6 +104,11 @@ def subst_tree(nodes, old, new):
     return out
 
 
+INT_RANGES = {f"i{b}": (-(2 ** (b - 1)), 2 ** (b - 1) - 1) for b in (8, 16, 32, 64, 128)}
+INT_RANGES.update({f"u{b}": (0, 2 ** b - 1) for b in (8, 16, 32, 64, 128)})
+INT_RANGES.update({"isize": INT_RANGES["i64"], "usize": INT_RANGES["u64"]})
+
+
 class Derivation:
     """Choices of one sample."""
 
@@ -297,8 +302,11 @@ class Renderer:
             return "TyRef"
         if role == "module-ref":
             return "fixture_mod"
-        if tys in ("i8", "i16", "i32", "i64", "u8", "u16", "u32", "u64", "usize", "isize"):
-            return "1"
+        if tys in INT_RANGES:
+            # an integer hole can hold any value of its type: the extremes decide whether the position it is written to is wide
+            # enough (rustc rejects an out-of-range literal), so render those rather than a small number
+            lo, hi = INT_RANGES[tys]
+            return str(lo if getattr(self.d, "index", 0) % 4 == 1 else hi)
         v = self.lexeme(self.CE.expand(nf))
         if trait == "debug":
             return json.dumps(v)
